@@ -1,110 +1,100 @@
 (** Model of the write-back cache filesystem/fscache/cache.go (as repaired): a buffer filespace
     [B] (an in-memory filespace), a remote filespace [R] (modelled as an in-memory filespace
-    too), and the tombstone set [T] of cleaned path STRINGS removed since the last Commit.
-    Every method cleans its argument with varutil.CleanPath and then talks to B and/or R with
-    that string; B and R normalise it themselves ([Fs.mem_step]).  Definitions only. *)
+    too), and the tombstone set [T] of paths removed since the last Commit.
+
+    Every method cleans its argument with varutil.CleanPath and then hands that string to B
+    and/or R, which reduce it; the model normalises once with [cnorm] = reduce ∘ clean_path and
+    works on component paths with the tree-level operations of Model/Fs.v.  (The real tombstone
+    set holds the cleaned STRINGS and isRemoved scans for '/'-boundary prefixes; for cleaned,
+    non-climbing paths that is the component-prefix test used here.  The correspondence check
+    is what ties this abstraction to the code.)  Definitions only. *)
 From GC Require Import Common.Base Model.Paths Model.Fs.
 
-Record cache := mkCache { cB : fs; cR : fs; cT : list bytes }.
+Record cache := mkCache { cB : fs; cR : fs; cT : list path }.
 
 Definition new_cache (remote : fs) : cache := mkCache [] remote [].
 
-(** isRemoved: the string or one of its prefixes ending at a '/' boundary is a tombstone. *)
-Fixpoint boundary_prefixes_from (pre rest : bytes) : list bytes :=
-  match rest with
-  | [] => []
-  | c :: rest' =>
-    let pre' := pre ++ [c] in
-    match rest' with
-    | [] => [pre']
-    | d :: _ => if N.eqb d SLASH then pre' :: boundary_prefixes_from pre' rest'
-                else boundary_prefixes_from pre' rest'
-    end
+Definition cnorm (s : bytes) : option path := reduce (clean_path s).
+
+(** isRemoved: the path or one of its ancestors is a tombstone. *)
+Definition masked (T : list path) (p : path) : bool := existsb (fun t => is_prefix t p) T.
+
+(** What is visible of the remote. *)
+Definition vis (c : cache) (p : path) : option entry :=
+  if masked (cT c) p then None else lookup (cR c) p.
+
+(** The view: the buffer on top of the visible remote (srcFS: a path is read from the buffer when
+    it is buffered or removed, otherwise from the remote). *)
+Definition vlookup (c : cache) (p : path) : option entry :=
+  match lookup (cB c) p with
+  | Some e => Some e
+  | None => vis c p
   end.
-Definition boundary_prefixes (s : bytes) : list bytes := boundary_prefixes_from [] s.
 
-Definition in_set (T : list bytes) (s : bytes) : bool := existsb (bytes_eqb s) T.
-Definition is_removed (T : list bytes) (s : bytes) : bool := existsb (in_set T) (boundary_prefixes s).
+Definition v_exists (c : cache) (p : path) : bool := match vlookup c p with Some _ => true | None => false end.
+Definition v_file (c : cache) (p : path) : bool := match vlookup c p with Some (F _) => true | _ => false end.
+Definition v_dir (c : cache) (p : path) : bool := match vlookup c p with Some D => true | _ => false end.
 
-Definition is_root_str (s : bytes) : bool := bytes_eqb s [DOT] || is_empty s.
-
-(** Boolean answer of a memfs query. *)
-Definition q_bool (t : fs) (o : op) : bool :=
-  match snd (mem_step t o) with RBool b => b | _ => false end.
-
-(** srcFS: where a (clean) path is read from — the buffer when it is buffered or removed. *)
-Definition from_buffer (c : cache) (q : bytes) : bool :=
-  q_bool (cB c) (OIsExist q) || is_removed (cT c) q.
-Definition pick (c : cache) (q : bytes) : fs := if from_buffer c q then cB c else cR c.
-
-Definition c_is_exist (c : cache) (s : bytes) : bool := let q := clean_path s in q_bool (pick c q) (OIsExist q).
-Definition c_is_file (c : cache) (s : bytes) : bool := let q := clean_path s in q_bool (pick c q) (OIsFile q).
-Definition c_is_dir (c : cache) (s : bytes) : bool := let q := clean_path s in q_bool (pick c q) (OIsDir q).
-
-(** path.Join(dir, name) for a clean [dir]: "." and "" mean the root. *)
-Definition join_name (dir name : bytes) : bytes :=
-  if is_root_str dir then name else dir ++ SLASH :: name.
-
-(** ReadDir: remote entries that are neither shadowed by a buffer entry nor removed, then the
-    buffer entries; an error only when both sides fail. *)
-Definition c_read_dir (c : cache) (s : bytes) : out :=
-  let q := clean_path s in
-  let r := if is_removed (cT c) q then RErr else snd (mem_step (cR c) (OReadDir q)) in
-  let b := snd (mem_step (cB c) (OReadDir q)) in
+(** ReadDir: remote entries that are neither shadowed by a buffer entry of that name nor
+    removed, then the buffer entries; an error only when both sides fail. *)
+Definition v_read_dir (c : cache) (p : path) : option (list (name * bool)) :=
+  let r := if masked (cT c) p then None
+           else if is_dir_at (cR c) p then Some (children (cR c) p) else None in
+  let b := if is_dir_at (cB c) p then Some (children (cB c) p) else None in
   match r, b with
-  | RErr, RErr => RErr
+  | None, None => None
   | _, _ =>
-    let rl := match r with RList l => l | _ => [] end in
-    let bl := match b with RList l => l | _ => [] end in
-    RList (filter (fun e => negb (existsb (fun be => bytes_eqb (fst be) (fst e)) bl)
-                            && negb (is_removed (cT c) (join_name q (fst e)))) rl ++ bl)
+    let rl := match r with Some l => l | None => [] end in
+    let bl := match b with Some l => l | None => [] end in
+    Some (filter (fun e => negb (existsb (fun be => bytes_eqb (fst be) (fst e)) bl)
+                           && negb (masked (cT c) (p ++ [fst e]))) rl ++ bl)
   end.
 
-(** checkDest: no visible FILE among the proper ancestors (string prefixes at '/' boundaries),
-    and the node itself is not of the other kind. *)
-Fixpoint proper_boundary_prefixes (l : list bytes) : list bytes := removelast l.
-Definition check_dest (c : cache) (dest : bytes) (is_dir : bool) : bool :=
-  negb (existsb (c_is_file c) (proper_boundary_prefixes (boundary_prefixes dest))) &&
-  (if is_dir then negb (c_is_file c dest) else negb (c_is_dir c dest)).
+(** All proper, non-empty prefixes of a path. *)
+Definition proper_prefixes (p : path) : list path := removelast (prefixes p).
+
+(** checkDest: no visible FILE among the proper ancestors, and the node itself is not of the
+    other kind. *)
+Definition check_dest (c : cache) (p : path) (want_dir : bool) : bool :=
+  negb (existsb (v_file c) (proper_prefixes p)) &&
+  (if want_dir then negb (v_file c p) else negb (v_dir c p)).
 
 Definition set_B (c : cache) (b : fs) : cache := mkCache b (cR c) (cT c).
-Definition add_T (c : cache) (q : bytes) : cache := mkCache (cB c) (cR c) (q :: cT c).
+Definition add_T (c : cache) (p : path) : cache := mkCache (cB c) (cR c) (p :: cT c).
 
-Definition upd_B (c : cache) (o : op) : cache * out :=
-  let (b, r) := mem_step (cB c) o in (set_B c b, r).
+Definition updB (c : cache) (r : option fs) : cache * out :=
+  match r with Some b => (set_B c b, RUnit) | None => (c, RErr) end.
+
+Definition c_write (c : cache) (p : path) (data : bytes) : cache * out :=
+  if check_dest c p false then updB c (write_at (cB c) p data) else (c, RErr).
+
+Definition c_mkdir (c : cache) (p : path) : cache * out :=
+  match p with
+  | [] => (c, RUnit)
+  | _ => if check_dest c p true then updB c (mkdir_all (cB c) p) else (c, RErr)
+  end.
 
 (** The flat tree seen through the cache: visible remote entries not shadowed by the buffer,
     then the buffer. *)
-Definition comp_removed (T : list bytes) (p : path) : bool := is_removed T (join p).
 Definition cview (c : cache) : fs :=
-  filter (fun qe => negb (comp_removed (cT c) (fst qe)) &&
+  filter (fun qe => negb (masked (cT c) (fst qe)) &&
                     match lookup (cB c) (fst qe) with None => true | Some _ => false end) (cR c)
   ++ cB c.
 
 (** Copier.Do with source and destination both the cache.  A file: Reader then Writer.  A
-    directory: MkdirAll(dest) and then every directory / file of the merged source view is
+    directory: MkdirAll(dest), then every directory / file of the merged source view is
     re-created below dest through the cache's own checked MkdirAll / Writer (existing
     destination directories are merged, files overwritten).  A destination equal to or inside
     the source is refused. *)
-Definition c_write (c : cache) (dest : bytes) (data : bytes) : cache * out :=
-  let q := clean_path dest in
-  if check_dest c q false then upd_B c (OWriteFile q data) else (c, RErr).
-
-Definition c_mkdir (c : cache) (dest : bytes) : cache * out :=
-  let q := clean_path dest in
-  if is_root_str q then (c, RUnit)
-  else if check_dest c q true then upd_B c (OMkdirAll q) else (c, RErr).
-
-Fixpoint copy_entries (c : cache) (dst : bytes) (l : fs) : cache * out :=
+Fixpoint copy_entries (c : cache) (dst : path) (l : fs) : cache * out :=
   match l with
   | [] => (c, RUnit)
   | (rel, e) :: l' =>
-    let target := dst ++ SLASH :: join rel in
     let (c1, r1) := match e with
-                    | D => c_mkdir c target
+                    | D => c_mkdir c (dst ++ rel)
                     | F data =>
-                      match c_mkdir c (dst ++ SLASH :: join (removelast rel)) with
-                      | (c0, RUnit) => c_write c0 target data
+                      match c_mkdir c (dst ++ removelast rel) with
+                      | (c0, RUnit) => c_write c0 (dst ++ rel) data
                       | x => x
                       end
                     end in
@@ -114,89 +104,74 @@ Fixpoint copy_entries (c : cache) (dst : bytes) (l : fs) : cache * out :=
     end
   end.
 
-Definition c_copy (c : cache) (s d : bytes) : cache * out :=
-  let src := clean_path s in
-  let dst := clean_path d in
-  (* a node is never copied onto or into itself *)
-  if bytes_eqb src dst || is_root_str src || has_prefix dst (src ++ [SLASH]) then (c, RErr) else
-  if c_is_file c src then
-    match snd (mem_step (pick c src) (OReadFile src)) with
-    | RData data => c_write c dst data
-    | _ => (c, RErr)
-    end
-  else if negb (c_is_dir c src) then (c, RErr)
-  else
-    match reduce src with
-    | None => (c, RErr)
-    | Some sp =>
-      match c_mkdir c dst with
-      | (c1, RUnit) => copy_entries c1 dst (subtree_moved (cview c) sp [])
-      | x => x
+Definition c_copy (c : cache) (src dst : path) : cache * out :=
+  match src with
+  | [] => (c, RErr)                                   (* the root is never copied *)
+  | _ =>
+    if is_prefix src dst then (c, RErr)               (* onto or into itself *)
+    else
+      match vlookup c src with
+      | Some (F data) => c_write c dst data
+      | Some D =>
+        match c_mkdir c dst with
+        | (c1, RUnit) => copy_entries c1 dst (subtree_moved (cview c) src [])
+        | x => x
+        end
+      | None => (c, RErr)
       end
-    end.
+  end.
 
 (** Remove: refused for the root, for an invisible node and for a directory whose merged
     listing is not empty; otherwise the buffered node is removed and a tombstone recorded. *)
-Definition c_remove (c : cache) (s : bytes) : cache * out :=
-  let q := clean_path s in
-  if is_root_str q then (c, RErr)
-  else if negb (c_is_exist c q) then (c, RErr)
-  else if c_is_dir c q &&
-          match c_read_dir c q with RList [] => false | _ => true end then (c, RErr)
-  else if q_bool (cB c) (OIsExist q) then
-    match mem_step (cB c) (ORemove q) with
-    | (b, RUnit) => (add_T (set_B c b) q, RUnit)
-    | _ => (c, RErr)
-    end
-  else (add_T c q, RUnit).
+Definition c_remove (c : cache) (p : path) : cache * out :=
+  match p with
+  | [] => (c, RErr)
+  | _ =>
+    if negb (v_exists c p) then (c, RErr)
+    else if v_dir c p && match v_read_dir c p with Some [] => false | _ => true end then (c, RErr)
+    else if exists_at (cB c) p then
+      match remove_at (cB c) p with
+      | Some b => (add_T (set_B c b) p, RUnit)
+      | None => (c, RErr)
+      end
+    else (add_T c p, RUnit)
+  end.
 
-Definition c_remove_all (c : cache) (s : bytes) : cache * out :=
-  let q := clean_path s in
-  if is_root_str q then (c, RErr)
-  else if q_bool (cB c) (OIsExist q) then
-    match mem_step (cB c) (ORemoveAll q) with
-    | (b, RUnit) => (add_T (set_B c b) q, RUnit)
-    | _ => (c, RErr)
-    end
-  else (add_T c q, RUnit).
+Definition c_remove_all (c : cache) (p : path) : cache * out :=
+  match p with
+  | [] => (c, RErr)
+  | _ =>
+    if exists_at (cB c) p then
+      match remove_all_at (cB c) p with
+      | Some b => (add_T (set_B c b) p, RUnit)
+      | None => (c, RErr)
+      end
+    else (add_T c p, RUnit)
+  end.
 
 (** Commit without fault: every tombstone that exists in the remote is removed recursively, then
     the whole buffer tree is materialised (directories made, files replaced); tombstones are
-    cleared.  [None] = some remote call failed (does not happen for a remote that is a plain
-    tree unless a file/directory conflict exists). *)
-Fixpoint apply_tombs (r : fs) (T : list bytes) : option fs :=
+    cleared.  [None] = a remote call failed (a file/directory conflict). *)
+Fixpoint apply_tombs (r : fs) (T : list path) : fs :=
   match T with
-  | [] => Some r
-  | t :: T' =>
-    if q_bool r (OIsExist t) then
-      match mem_step r (ORemoveAll t) with
-      | (r', RUnit) => apply_tombs r' T'
-      | _ => None
-      end
-    else apply_tombs r T'
+  | [] => r
+  | t :: T' => apply_tombs (if exists_at r t then delete_subtree r t else r) T'
   end.
 
 Fixpoint materialise (r : fs) (l : fs) : option fs :=
   match l with
   | [] => Some r
   | (p, e) :: l' =>
-    match (match e with
-           | D => mem_step r (OMkdirAll (join p))
-           | F data => mem_step r (OWriter (join p) [data])
-           end) with
-    | (r', RUnit) => materialise r' l'
-    | _ => None
+    match (match e with D => mkdir_all r p | F data => write_at r p data end) with
+    | Some r' => materialise r' l'
+    | None => None
     end
   end.
 
 Definition c_commit (c : cache) : cache * out :=
-  match apply_tombs (cR c) (cT c) with
+  match materialise (apply_tombs (cR c) (cT c)) (cB c) with
   | None => (c, RErr)
-  | Some r1 =>
-    match materialise r1 (cB c) with
-    | None => (c, RErr)
-    | Some r2 => (mkCache (cB c) r2 [], RUnit)
-    end
+  | Some r2 => (mkCache (cB c) r2 [], RUnit)
   end.
 
 Inductive cop :=
@@ -204,8 +179,8 @@ Inductive cop :=
 | CCommit
 | CCommitFault.     (* a Commit during which the remote failed: reported, state kept for a retry *)
 
-Definition query (c : cache) (o : op) (q : bytes) : cache * out :=
-  (c, snd (mem_step (pick c q) o)).
+Definition on1 (c : cache) (s : bytes) (dflt : out) (k : path -> cache * out) : cache * out :=
+  match cnorm s with Some p => k p | None => (c, dflt) end.
 
 Definition cache_step (c : cache) (co : cop) : cache * out :=
   match co with
@@ -213,22 +188,37 @@ Definition cache_step (c : cache) (co : cop) : cache * out :=
   | CCommitFault => (c, RErr)
   | COp o =>
     match o with
-    | OCopy s d => c_copy c s d
-    | OCopyDir s d => if c_is_dir c s then c_copy c s d else (c, RErr)
-    | OCopyFile s d => if c_is_file c s then c_copy c s d else (c, RErr)
-    | OReadDir s => (c, c_read_dir c s)
-    | OIsExist s => (c, RBool (c_is_exist c s))
-    | OIsFile s => (c, RBool (c_is_file c s))
-    | OIsDir s => (c, RBool (c_is_dir c s))
-    | OMkdirAll s => c_mkdir c s
-    | OReadFile s => let q := clean_path s in query c (OReadFile q) q
-    | OWriteFile s data => c_write c s data
+    | OCopy s d =>
+      match cnorm s, cnorm d with Some sp, Some dp => c_copy c sp dp | _, _ => (c, RErr) end
+    | OCopyDir s d =>
+      match cnorm s, cnorm d with
+      | Some sp, Some dp => if v_dir c sp then c_copy c sp dp else (c, RErr)
+      | _, _ => (c, RErr)
+      end
+    | OCopyFile s d =>
+      match cnorm s, cnorm d with
+      | Some sp, Some dp => if v_file c sp then c_copy c sp dp else (c, RErr)
+      | _, _ => (c, RErr)
+      end
+    | OReadDir s => on1 c s RErr (fun p => (c, match v_read_dir c p with Some l => RList l | None => RErr end))
+    | OIsExist s => on1 c s (RBool false) (fun p => (c, RBool (v_exists c p)))
+    | OIsFile s => on1 c s (RBool false) (fun p => (c, RBool (v_file c p)))
+    | OIsDir s => on1 c s (RBool false) (fun p => (c, RBool (v_dir c p)))
+    | OMkdirAll s => on1 c s RErr (c_mkdir c)
+    | OReadFile s => on1 c s RErr (fun p => (c, match vlookup c p with Some (F d) => RData d | _ => RErr end))
+    | OWriteFile s data => on1 c s RErr (fun p => c_write c p data)
     | OFilespace _ => (c, RUnit)
-    | OReader s bufs => let q := clean_path s in query c (OReader q bufs) q
-    | OWriter s chunks => c_write c s (concat chunks)
-    | ORemove s => c_remove c s
-    | ORemoveAll s => c_remove_all c s
-    | OLstat s => let q := clean_path s in query c (OLstat q) q
+    | OReader s bufs =>
+      on1 c s RErr (fun p => (c, match vlookup c p with Some (F d) => RChunks (read_seq d bufs) | _ => RErr end))
+    | OWriter s chunks => on1 c s RErr (fun p => c_write c p (concat chunks))
+    | ORemove s => on1 c s RErr (c_remove c)
+    | ORemoveAll s => on1 c s RUnit (c_remove_all c)   (* a climbing path: "nothing to remove" *)
+    | OLstat s =>
+      on1 c s RErr (fun p => (c, match vlookup c p with
+                                 | Some D => RStat true 0
+                                 | Some (F d) => RStat false (N.of_nat (length d))
+                                 | None => RErr
+                                 end))
     end
   end.
 
